@@ -271,6 +271,19 @@ func (c *treeChecker) grammar(n Node, inLink bool) {
 	if in.Kind() == LinkKind {
 		check(!inLink, "C05.link-in-link")
 	}
+	// phrasing content all the way down: emphasis holds only phrasing inlines, and a
+	// destination / title / label part is a direct child of a link or image only
+	if in.Kind() == EmphasisKind || in.Kind() == StrongKind {
+		for i := 0; i < in.ChildCount(); i++ {
+			check(phrasing(in.Child(i).Kind()), "C05.phrasing-in-emphasis:"+kindName(in.Child(i).AsNode()))
+		}
+	}
+	if in.Kind() != LinkKind && in.Kind() != ImageKind {
+		for i := 0; i < in.ChildCount(); i++ {
+			k := in.Child(i).Kind()
+			check(k != LinkDestinationKind && k != LinkTitleKind && k != LinkLabelKind, "C05.link-part-outside-link")
+		}
+	}
 	if in.Kind() == LinkKind || in.Kind() == ImageKind {
 		nn := in.ChildCount()
 		tail := 0
@@ -280,6 +293,7 @@ func (c *treeChecker) grammar(n Node, inLink bool) {
 				tail++
 			} else {
 				check(tail == 0, "C05.link-tail-not-last")
+				check(phrasing(k), "C05.phrasing-in-link:"+kindName(in.Child(i).AsNode()))
 			}
 		}
 		check(tail <= 2, "C05.link-tail-count")
